@@ -87,6 +87,8 @@ class Gen:
                 p["name"] = "jobs"          # the same explicit name may be given to several pools
             elif rng.random() < 0.12:
                 p["name"] = ""              # an empty name is no name: the pool is named by its index
+            if rng.random() < 0.12:
+                p["sub"] = 1                # a pool of a factory-made class (same __name__ as other such classes)
             if cls == "S":
                 p["fk"] = rng.choice(["sync", "sync", "plain", "pmeth", "wrap"])
                 p["fn"] = rng.randrange(3)
@@ -160,6 +162,8 @@ class Gen:
             p["name"] = "late" + str(len(sim.pools))
         elif rng.random() < 0.15:
             p["name"] = ""
+        if rng.random() < 0.2:
+            p["sub"] = 1
         if cls == "S":
             p.update({"fk": "sync", "fn": rng.randrange(3), "ash": rng.choice(ASH), "ecb": rng.choice(CB_KINDS_SAFE),
                       "ccb": rng.choice(CB_KINDS_SAFE), "sc": [self._script()]})
